@@ -80,6 +80,9 @@ func indices(rt *project.RepTruth, rng *rand.Rand, thorough bool) [][]int64 {
 	ks = append(ks, kf, kf+int64(rng.Intn(1000)))
 	if thorough {
 		ks = append(ks, 10, 7+int64(rng.Intn(500)), kb-1, (int64(1)<<31)/rt.L, kf/2+int64(rng.Intn(100000)))
+		for j := 0; j < 20; j++ { // seeded loop counts anywhere between the start and the year 2025
+			ks = append(ks, 2+rng.Int63n(kf))
+		}
 	}
 	for _, k := range ks {
 		if k < 1 {
